@@ -55,7 +55,12 @@ fn build_with(gd: &GenDict, pre: &[Op]) -> Outcome<vibrato::Dictionary> {
 fn apply(d: vibrato::Dictionary, op: &Op) -> Outcome<vibrato::Dictionary> {
     let op = op.clone();
     match op {
-        Op::Map(l, r) => guarded(move || d.map_connection_ids_from_iter(l, r)),
+        Op::Map(l, r) => {
+                // the ids are handed over as a Vec, or as lazy iterators whose length is not known in advance
+                // (as when they are streamed from the lines of a mapping file)
+                if (l.len() + r.len()) % 2 == 0 { guarded(move || d.map_connection_ids_from_iter(l, r)) }
+                else { guarded(move || d.map_connection_ids_from_iter(l.into_iter().filter(|_| true), r.into_iter().filter(|_| true))) }
+            }
         Op::User(Some(rows)) => {
             let csv = GenDict::rows_csv(&rows);
             guarded(move || d.reset_user_lexicon_from_reader(Some(csv.as_bytes())))
@@ -212,6 +217,16 @@ pub fn run(prop: &str, seed: u64, n: usize, outdir: &str, _corpus: Option<&str>)
             for (k, alt) in [&b"VibratoTokenizer 0.4\n"[..], b"VibratoTokenizer 0.6\n", b"VibratoTokenizer 1.0\n", b"VibratoTokenizer 0.5\r", b"vibratotokenizer 0.5\n", b"MeCabDictionary  0.5\n", b""].iter().enumerate() {
                 try_magic(alt.to_vec(), 400000 + k, &mut mtests, &mut mbad);
             }
+            // a load that fails must leave nothing behind: right after reading the strict prefix image[..k] (an error) on
+            // this thread, the remainder image[k..] -- a stream without the magic -- must be rejected as well
+            for k in [1usize, 20, 21, 22, 100, len / 2, len - 1] {
+                if k == 0 || k >= len { continue; }
+                mtests += 1;
+                let first = read_outcome(&img[..k]);
+                let second = read_outcome(&img[k..]);
+                if first != 1 { mbad.push((500000 + k, first)); }
+                if second != 1 { mbad.push((600000 + k, second)); }
+            }
             // offsets at which the model evaluates its own decoder
             let model_offs: Vec<usize> = if give_image { (0..6).map(|_| rng.below(len as u64) as usize).chain([0, 20, 21, 22, len - 1]).collect() } else { vec![] };
             let term = format!(
@@ -241,6 +256,22 @@ pub fn run(prop: &str, seed: u64, n: usize, outdir: &str, _corpus: Option<&str>)
             let mut img2 = vec![];
             let c2 = d2.write(&mut img2).unwrap();
             flags.push(("rewrite_same_bytes".into(), (img2 == img && c2 == img.len()) as u8));
+            // the image followed by a second image and a trailer in ONE stream: each read consumes exactly the bytes its
+            // write reported and leaves what follows to the next reader
+            {
+                let mut both = img.clone();
+                both.extend_from_slice(&img2);
+                both.extend_from_slice(b"trailer");
+                let mut cur = std::io::Cursor::new(&both[..]);
+                let ok = std::panic::catch_unwind(std::panic::AssertUnwindSafe(|| {
+                    let a = vibrato::Dictionary::read(&mut cur).is_ok();
+                    let pa = cur.position() as usize;
+                    let b = vibrato::Dictionary::read(&mut cur).is_ok();
+                    let pb = cur.position() as usize;
+                    a && b && pa == img.len() && pb == img.len() + img2.len() && &both[pb..] == b"trailer"
+                })).unwrap_or(false);
+                flags.push(("two_images_in_one_stream".into(), ok as u8));
+            }
             // cross-build interchange: the portable run leaves its image on disk, the AVX2 run compares
             if let Some(dir) = &imgdir {
                 let path = format!("{}/{}.bin", dir, sub);
